@@ -275,6 +275,41 @@ def case_fext(c, rng, tier):
     dz = dict(d); dz['uTM'] = 0.0; dz['thetaTdeg'] = 0.0
     fc = np.asarray(build_loaded(dz, const).calc_fext(inc=1., silent=True))
     c.judge('fext(0) equals the vector of the constant loads alone', float((np.abs(f0 - fc) / (np.abs(f0) + np.abs(fc) + 1e-9 * (np.abs(fc).max() + 1e-300) + 1e-300)).max()), 1e-12)
+    # the point forces of the already evaluated object are redefined (same number of forces at other places / with other
+    # components, or one force edited in place - the pattern of a perturbation-load study): the vector asked for now is the one of
+    # the forces as they are now
+    if 'spls' not in loads and (loads.get('forces') or loads.get('forces_inc')) and rng.random() < 0.7:
+        c.tag('clause:forces_redefined')
+        loads2 = dict(loads)
+        how = str(rng.choice(['replaced_same_count', 'edited_in_place']))
+        for key, attr, incr in (('forces', 'forces', False), ('forces_inc', 'forces_inc', True)):
+            old_ = loads.get(key) or []
+            if not old_:
+                continue
+            if how == 'replaced_same_count':
+                new_ = [[float(rng.uniform(0, d['L'])), float(rng.uniform(0, 360))] + [float(v) for v in rng.normal(size=3) * 10 ** rng.uniform(0, 3)] for _ in old_]
+                setattr(cc, attr, [])
+                for f in new_:
+                    cc.add_force(*f, increment=incr)
+            else:
+                new_ = [list(f) for f in old_]
+                j = int(rng.integers(0, len(new_)))
+                new_[j] = [float(rng.uniform(0, d['L'])), float(rng.uniform(0, 360))] + [float(v) for v in rng.normal(size=3) * 10 ** rng.uniform(0, 3)]
+                lst = getattr(cc, attr)
+                for k_ in range(5):
+                    lst[j][k_] = new_[j][k_] if k_ != 1 else float(np.deg2rad(new_[j][1]))     # the object stores the angle in radians
+            loads2[key] = new_
+        c.desc['forces_redefined'] = {'how': how, 'forces': loads2.get('forces'), 'forces_inc': loads2.get('forces_inc')}
+        fext2 = np.asarray(cc.calc_fext(inc=inc, silent=True), dtype=float)
+        f_loads2 = fext2 - pres
+        for trial in range(3):
+            cu = rng.normal(size=free.size)
+            cfull = np.zeros(size); cfull[free] = cu
+            W, S = virtual_work(cc, d, loads2, cfull, inc)
+            got = float(f_loads2 @ cu)
+            sc = S + float(np.abs(f_loads2) @ np.abs(cu)) + (float(np.abs(pres) @ np.abs(cu)) * 1e-6 if ex else 0.0)
+            c.judge('fext after the point forces were redefined equals the virtual work of the forces as they are now', abs(got - W), 3e-9 * sc + 1e-300,
+                    data={'how': how})
     return c
 
 
